@@ -24,6 +24,8 @@ type Engine struct {
 	errorIface   *types.Interface
 	errorStringT types.Type
 	wrapErrorT   types.Type
+	wrapErrorsT  types.Type
+	joinErrorT   types.Type
 	ctxCanceled  *ssa.Global
 	ctxDeadline  *ssa.Global
 	redirect     map[string]*ssa.Function
@@ -82,6 +84,8 @@ func loadEngine(repo string, overlay map[string][]byte, tags string) (*Engine, t
 	e.errorIface = types.Universe.Lookup("error").Type().Underlying().(*types.Interface)
 	e.errorStringT = prog.ImportedPackage("errors").Pkg.Scope().Lookup("errorString").Type()
 	e.wrapErrorT = prog.ImportedPackage("fmt").Pkg.Scope().Lookup("wrapError").Type()
+	e.wrapErrorsT = prog.ImportedPackage("fmt").Pkg.Scope().Lookup("wrapErrors").Type()
+	e.joinErrorT = prog.ImportedPackage("errors").Pkg.Scope().Lookup("joinError").Type()
 	e.ctxCanceled = prog.ImportedPackage("context").Var("Canceled")
 	e.ctxDeadline = prog.ImportedPackage("context").Var("DeadlineExceeded")
 	return e, time.Since(t0)
